@@ -109,6 +109,13 @@ func (s *RoundTrip) Run(env *core.Env, st *core.Stats) (vs []core.Violation) {
 			}
 		}
 		st.ReachKey(fmt.Sprintf("format-%d", want.Format))
+		st.ProbeIf(len(want.Tracks) > 16, "more-than-16-tracks")
+		for _, t := range want.Tracks {
+			if len(t) > 1000 {
+				st.Probe("more-than-1000-events-in-a-track")
+				break
+			}
+		}
 		if want.Division&0x8000 != 0 {
 			st.ReachKey("division-smpte")
 		} else {
